@@ -3,8 +3,10 @@
  * Space (E3), all enumerated, nothing sampled:
  *  A  every list of <= N entries (N = 4 quick, 5 thorough), IN EVERY ORDER, over the element alphabet
  *        id in {3,31} x payload {0,1} bytes   (short)      id in {32,127} x payload {0,1,254,255,256,510} bytes   (long)
- *        x frame in F(nb_frames):  nb_frames 1,2,3 -> every frame;  nb_frames 48 -> {0,1,46,47} up to N-1 entries and {0,1,47} at N entries
- *        thorough adds nb_frames 4 (every frame, N = 4).
+ *        x frame in F(nb_frames):  nb_frames 1,2,3 -> every frame, N entries;
+ *        nb_frames 48 -> quick: frames {0,1,46,47} up to 3 entries and {0,1,47} at 4 entries; thorough: {0,1,46,47} up to 4 entries
+ *        (48 frames cannot trigger the repeat mechanism with so few entries; family B covers that);
+ *        thorough adds nb_frames 4 (every frame, up to 4 entries).
  *  B  repeat family: nb_frames = 1..48, every frame carries the same k-tuple (k <= 2 quick, <= 3 thorough) of elements from
  *        {short id3 L0, short id4 1 byte, long id32 2 bytes, long id33 0 bytes, long id127 255 bytes}, listed frame-major and
  *        slot-major, with 0 or 1 deviation at every (frame,slot): entry dropped / other id / other length / extra entry inserted.
@@ -39,6 +41,7 @@ static opus_extension_data *exarr_get(int which,int n){
 static void exarr_put(int n,opus_extension_data *p){ if(n>SMALLN) free(p); }
 
 /* trunc_mode (depth of the per-list work; the round-trip/agreement oracles are always on):
+   3 = as 2 and literally every size 0..dry-1 (lists of <= 2 entries of part A);
    2 = every size check point around every extension, pad=1 with 0/1/255 spare bytes, dry run at the exact length, find;
    1 = sizes {dry-1, dry-2, one byte short of every payload end}, pad=1 with 1 spare byte, find;
    0 = sizes {dry-1, one byte short of every payload end}, pad=1 with 1 spare byte. */
@@ -47,6 +50,8 @@ static void check_list(const opus_extension_data *ex,int n,int nbf,int trunc_mod
    int cand[64],nc=0;
    l_eval++;
    if (MC.only_item>=0) mc_case("generate","%s nb_frames=%d list {%s}",what,nbf,c16_list_str(ex,n));
+   else { unsigned char enc[64]; int q; for(q=0;q<n&&q<16;q++){ enc[4*q]=(unsigned char)ex[q].id; enc[4*q+1]=(unsigned char)ex[q].frame; enc[4*q+2]=(unsigned char)(ex[q].len>>8); enc[4*q+3]=(unsigned char)ex[q].len; }
+      mc_case_bytes("generate",enc,4*(n<16?n:16),nbf,n,trunc_mode); }   /* crash attribution: a=nb_frames b=entries, bytes = (id,frame,len_hi,len_lo) per entry */
    dry=opus_packet_extensions_generate(NULL,BIG,ex,n,nbf,0); l_calls++;
    if (dry<0){ FAIL("gen:valid_list_refused","generate(NULL)=%d; %s nb_frames=%d list {%s}",(int)dry,what,nbf,c16_list_str(ex,n)); return; }
    if (dry>l_maxdry) l_maxdry=dry; if (n>l_maxn) l_maxn=n;
@@ -79,6 +84,9 @@ static void check_list(const opus_extension_data *ex,int n,int nbf,int trunc_mod
         opus_extension_iterator_init(&it,g,dry,nbf); r=opus_extension_iterator_find(&it,&e,id); l_calls++;
         if (r!=1||want<0||e.data!=out[want].data||e.frame!=out[want].frame||e.len!=out[want].len){ FAIL("gen:agree_find","find(%d) ret=%d; nb_frames=%d list {%s}",id,r,nbf,c16_list_str(ex,n)); goto done; } } }
    /* smaller buffers are refused, nothing written outside (exact-size heap block per size) */
+   if (trunc_mode>=3){ /* literally every smaller size */
+      int s2; for(s2=0;s2<dry-2;s2++){ unsigned char *t=c16_blk(&OUT,s2); w=opus_packet_extensions_generate(t,s2,ex,n,nbf,0); l_calls++; l_trunc++;
+         if (w!=OPUS_BUFFER_TOO_SMALL){ FAIL("gen:smaller_buffer_not_refused","len=%d (exact size %d) returned %d; nb_frames=%d list {%s}",s2,(int)dry,(int)w,nbf,c16_list_str(ex,n)); goto done; } } }
    cand[nc++]=dry-1; if(trunc_mode>=1) cand[nc++]=dry-2;
    for(i=0;i<n&&nc<56;i++){ int z=(int)(out[i].data-g)+out[i].len; cand[nc++]=z-1; if(trunc_mode>=2){ cand[nc++]=z; cand[nc++]=z+1; cand[nc++]=z+2; } if(trunc_mode>=2&&i==0){ cand[nc++]=0; cand[nc++]=1; } if(n>12&&i==1) i=n-3; }
    for(i=0;i<nc;i++){
@@ -123,7 +131,7 @@ typedef struct { int id,len; } el_t;
 static el_t EL[16]; static int NEL;
 static const int LLEN[6]={0,1,254,255,256,510};
 typedef struct { int nbf,nfr,fr[4],maxn_q,maxn_t; } cfg_t;
-static const cfg_t CFG[6]={ {1,1,{0},4,5}, {2,2,{0,1},4,5}, {3,3,{0,1,2},4,5}, {48,4,{0,1,46,47},3,4}, {48,3,{0,1,47},4,5}, {4,4,{0,1,2,3},0,4} };
+static const cfg_t CFG[6]={ {1,1,{0},4,5}, {2,2,{0,1},4,5}, {3,3,{0,1,2},4,5}, {48,4,{0,1,46,47},3,4}, {48,3,{0,1,47},4,0}, {4,4,{0,1,2,3},0,4} };
 static unsigned char *PAY[8][520];     /* PAY[pos][len]: exact-size payload block for list position pos */
 static unsigned char *pay(int pos,int len){
    if (!PAY[pos][len]){ int j; PAY[pos][len]=malloc(len?len:1); for(j=0;j<len;j++) PAY[pos][len][j]=(unsigned char)(pos*41+j*7+3); }
@@ -137,8 +145,8 @@ static void small_scope(const cfg_t *c,long pfx){
    int per=NEL*c->nfr, maxn=maxn_of(c), n,i; opus_extension_data ex[8]; char what[64];
    snprintf(what,sizeof what,"A(all lists<=%d)",maxn);
    if (pfx<0){
-      check_list(ex,0,c->nbf,2,what);
-      if (maxn>=1) for(i=0;i<per;i++){ set_entry(&ex[0],c,0,i); check_list(ex,1,c->nbf,2,what); }
+      check_list(ex,0,c->nbf,3,what);
+      if (maxn>=1) for(i=0;i<per;i++){ set_entry(&ex[0],c,0,i); check_list(ex,1,c->nbf,3,what); }
       return;
    }
    set_entry(&ex[0],c,0,(int)(pfx%per)); set_entry(&ex[1],c,1,(int)(pfx/per));
@@ -146,7 +154,7 @@ static void small_scope(const cfg_t *c,long pfx){
       int d[8]; int m=n-2;
       for(i=0;i<m;i++){ d[i]=0; set_entry(&ex[2+i],c,2+i,0); }
       for(;;){
-         check_list(ex,n,c->nbf,n<=3?2:n==4?1:0,what);
+         check_list(ex,n,c->nbf,n<=2?3:n==3?2:n==4?1:0,what);
          for(i=m-1;i>=0;i--){ if(++d[i]<per){ set_entry(&ex[2+i],c,2+i,d[i]); break; } d[i]=0; set_entry(&ex[2+i],c,2+i,0); }
          if (i<0) break;
       }
